@@ -338,6 +338,9 @@ pub fn judge(g: &mut Gen, bytes: &[u8], version: u8, expect: Expect, describe: &
             let parsed_in = if info.is_some() { info } else { inspect::parse(bytes).ok() };
             if parsed_in.is_none() {
                 g.label("accepted:input_unreadable_by_harness");
+                if std::env::var_os("VF_WASM_TIMING").is_some() {
+                    eprintln!("UNREADABLE: {:?} / {:?} :: {}", inspect::validates(bytes, true).err(), inspect::parse(bytes).err(), describe().chars().take(300).collect::<String>());
+                }
             }
             if let Err((sig, msg)) = check_output(parsed_in.as_ref(), &out, version) {
                 return Outcome::fail(sig, format!("{}\nVM version {}\ninput: {}", msg, version, describe()));
@@ -403,7 +406,8 @@ fn modules_case(g: &mut Gen) -> Outcome {
         _ => {
             let list = watgen::EDGE_TOGGLES;
             let t = list[g.index(list.len() - 1)];
-            if g.chance(1, 12) {
+            // validating 8192 functions takes ~10 s (quadratic stack-cost computation): rare
+            if g.chance(1, 150) {
                 Toggle::EdgeFunctions
             } else {
                 t
@@ -438,7 +442,12 @@ fn modules_case(g: &mut Gen) -> Outcome {
     }
     let expect = if toggle.is_violation() { Expect::Reject(toggle) } else { Expect::Accept };
     let wat_text = m.wat.clone();
-    judge(g, &bytes, opts.vm_version, expect, &|| wat_text.clone())
+    let t0 = std::time::Instant::now();
+    let r = judge(g, &bytes, opts.vm_version, expect, &|| wat_text.clone());
+    if std::env::var_os("VF_WASM_TIMING").is_some() && t0.elapsed().as_millis() > 50 {
+        eprintln!("SLOW {} ms: {} ({} bytes)", t0.elapsed().as_millis(), toggle.label(), bytes.len());
+    }
+    r
 }
 
 // ------------------------------------------------------------------------------------------------
